@@ -84,6 +84,11 @@ enum RV {
     Lst,
     Tup,
     Iter,
+    Rng,
+    PMap,
+    Gen,
+    InnerNext,
+    InnerIter,
 }
 impl RV {
     fn sexp(self) -> String {
@@ -96,6 +101,11 @@ impl RV {
             RV::Lst => "lst".into(),
             RV::Tup => "tup".into(),
             RV::Iter => "iter".into(),
+            RV::Rng => "rng".into(),
+            RV::PMap => "pmap".into(),
+            RV::Gen => "gen".into(),
+            RV::InnerNext => "innernext".into(),
+            RV::InnerIter => "inneriter".into(),
         }
     }
     fn koto(self) -> String {
@@ -108,6 +118,11 @@ impl RV {
             RV::Lst => "[20, 21]".into(),
             RV::Tup => "(20, 21)".into(),
             RV::Iter => "(20, 21).iter()".into(),
+            RV::Rng => "0..2".into(),
+            RV::PMap => "{ka: 1}".into(),
+            RV::Gen => "yield 20".into(), // see beh_body: the function is a generator
+            RV::InnerNext => "n60".into(),
+            RV::InnerIter => "n61".into(),
         }
     }
     /// canonical text of the value when `self` renders as `slf`
@@ -120,7 +135,11 @@ impl RV {
             RV::SelfV => slf.to_string(),
             RV::Lst => "(l i20 i21)".into(),
             RV::Tup => "(t i20 i21)".into(),
-            RV::Iter => "iter".into(),
+            RV::Iter | RV::Gen => "iter".into(),
+            RV::Rng => "range".into(),
+            RV::PMap => "m:?".into(),
+            RV::InnerNext => "m:n60".into(),
+            RV::InnerIter => "m:n61".into(),
         }
     }
 }
@@ -539,6 +558,7 @@ impl Case {
 
 fn beh_body(b: Beh, tickkey: &str, ind: &str, out: &mut String) {
     match b {
+        Beh::Ret(RV::Gen) => out.push_str(&format!("{}yield 20\n{}yield 21\n", ind, ind)),
         Beh::Ret(v) => out.push_str(&format!("{}{}\n", ind, v.koto())),
         Beh::Unimpl => out.push_str(&format!("{}throw koto.unimplemented\n", ind)),
         Beh::Throw => out.push_str(&format!("{}throw 'boom'\n", ind)),
@@ -687,12 +707,19 @@ fn render_opd(o: &Opd, protos: &mut Vec<usize>, out: &mut String) {
     }
 }
 
+/// the auxiliary objects an `@iterator` may return: n60 has `@next` (two values), n61 has its own
+/// `@iterator` returning a list
+const INNER_OBJECTS: &str = "n60 =\n  @next: ||\n    tr('n60', 'Next', self)\n    c = tick 'n60.Next'\n    if c < 2 then 10 + c else null\nreg('n60', n60)\nn61 =\n  @iterator: ||\n    tr('n61', 'Iterator', self)\n    [20, 21]\nreg('n61', n61)\n";
+
 fn render(c: &Case) -> String {
     let mut s = String::new();
     let mut protos = vec![];
     render_opd(&c.a, &mut protos, &mut s);
     if let Some(b) = &c.b {
         render_opd(b, &mut protos, &mut s);
+    }
+    if s.contains("n60") || s.contains("n61") {
+        s = format!("{}{}", INNER_OBJECTS, s);
     }
     let a = c.a.var();
     let b = c.b.as_ref().map(|b| b.var()).unwrap_or_default();
@@ -833,7 +860,7 @@ impl HostData {
             RV::Str => "r".into(),
             RV::Lst => KValue::List(KList::from_slice(&[20.into(), 21.into()])),
             RV::Tup => KValue::Tuple(vec![KValue::from(20), KValue::from(21)].into()),
-            RV::Iter => KValue::Null,
+            RV::Iter | RV::Rng | RV::PMap | RV::Gen | RV::InnerNext | RV::InnerIter => KValue::Null,
         }
     }
     /// a value-returning method: overridden with a behaviour, or "unimplemented" like the default
@@ -1850,8 +1877,9 @@ fn model_matches(model: &str, imp: &str) -> bool {
     false
 }
 
-/// `@iterator` returns the object itself: the public `make_iterator` recurses without bound (the
-/// process dies with a stack overflow) — kept out of the `iterator.to_list` envelope
+/// `@iterator` returns the object itself: `make_iterator` recurses without bound (the process dies
+/// with a stack overflow) — kept out of the iteration envelope (since /repo bf483d2 `for` converts
+/// the result with `make_iterator` too, so it is affected as well)
 fn iter_returns_self(o: &Opd) -> bool {
     o.top_meta().and_then(|m| m.get("Iterator")).is_some_and(|mv| match mv {
         MV::Fn(Beh::Ret(RV::SelfV)) => true,
@@ -1862,7 +1890,7 @@ fn iter_returns_self(o: &Opd) -> bool {
 
 impl Ctx {
     fn push(&mut self, c: Case) {
-        if matches!(c.op, Op::ToList | Op::Reversed) && iter_returns_self(&c.a) {
+        if matches!(c.op, Op::For | Op::ToList | Op::Reversed) && iter_returns_self(&c.a) {
             self.rep.bump("skipped=iterator_returns_self");
             return;
         }
@@ -1889,7 +1917,7 @@ impl Ctx {
     }
 
     /// attribute a (D) failure to a listed finding by its cause, or None
-    fn attribute(&self, c: &Case, rule: &str, o: &Outcome, other: Option<&Outcome>) -> Option<String> {
+    fn attribute(&self, c: &Case, rule: &str, o: &Outcome, _other: Option<&Outcome>) -> Option<String> {
         // F-C17-1: compound assignment, both operands host objects and different instances: the
         // callee received a *copy* of the right operand (guard `o2.is_same_instance(o2)`)
         if rule == "operand_order" {
@@ -1898,23 +1926,6 @@ impl Ctx {
                 let got_copy = o.trace.iter().any(|e| e.contains("_assign ") && e.ends_with(&format!("args=[h:n{}#1]", hb.name)));
                 if copied && got_copy && self.open.iter().any(|x| x == "F-C17-1") {
                     return Some("F-C17-1".into());
-                }
-            }
-        }
-        // F-C17-2: `for` over a map whose `@iterator` returns a list (iterable, not an iterator),
-        // no `@next`: the loop fails with a type error while the public make_iterator path works
-        if rule == "iteration_consistent" {
-            let returns_list = c.a.top_meta().and_then(|m| m.get("Iterator")).is_some_and(|mv| {
-                matches!(mv, MV::Fn(Beh::Ret(RV::Lst)) | MV::Chain(_, Some(Beh::Ret(RV::Lst))))
-            });
-            if c.op == Op::For && returns_list {
-                let no_next = c.a.top_meta().is_some_and(|m| m.get("Next").is_none());
-                if no_next
-                    && o.result == "E:type"
-                    && other.is_some_and(|x| x.result == "ok (l i20 i21)")
-                    && self.open.iter().any(|x| x == "F-C17-2")
-                {
-                    return Some("F-C17-2".into());
                 }
             }
         }
@@ -2020,6 +2031,33 @@ impl Ctx {
                 if o.result != o2.result && !both_err {
                     d_failed = true;
                     self.d_failure(c, req, &script, &o, model, "iteration_consistent", "`for` and `iterator.to_list` disagree on the same object".into(), Some(&o2));
+                }
+            }
+        }
+        // (D) unpacking (`a, b = x`: MakeIterator + IterNext) sees the first elements of the public iteration
+        let only_iterator = c.a.top_meta().is_some_and(|m| m.get("Iterator").is_some() && m.get("Next").is_none());
+        if c.op == Op::For && only_iterator && !iter_returns_self(&c.a) {
+            let mut script2 = String::new();
+            let mut protos = vec![];
+            render_opd(&c.a, &mut protos, &mut script2);
+            if script2.contains("n60") || script2.contains("n61") {
+                script2 = format!("{}{}", INNER_OBJECTS, script2);
+            }
+            script2.push_str(&format!("a, b = {}\n[a, b]\n", c.a.var()));
+            if let Ok(o2) = run_case(c, &script2) {
+                self.rep.bump("unpack_vs_for_compared");
+                let ints = |r: &str| -> Option<Vec<String>> {
+                    let inner = r.strip_prefix("ok (l")?.strip_suffix(')')?;
+                    let v: Vec<String> = inner.split_whitespace().map(|x| x.to_string()).collect();
+                    if v.iter().all(|x| x.starts_with('i') && x[1..].chars().all(|ch| ch.is_ascii_digit())) { Some(v) } else { None }
+                };
+                let mismatch = match (ints(&o.result), ints(&o2.result)) {
+                    (Some(f), Some(u)) if f.len() >= 2 => u != f[..2].to_vec(),
+                    _ => o.result.starts_with("E:") != o2.result.starts_with("E:"),
+                };
+                if mismatch {
+                    d_failed = true;
+                    self.d_failure(c, req, &script, &o, model, "iteration_consistent", "unpacking `a, b = x` and `for` disagree on the same object".into(), Some(&o2));
                 }
             }
         }
@@ -2247,7 +2285,7 @@ fn gen_unary_grid(cx: &mut Ctx) {
         Beh::Unimpl,
         Beh::Throw,
     ];
-    let unary: [(&str, &str, Vec<Op>); 9] = [
+    let unary: [(&str, &str, Vec<Op>); 10] = [
         ("Negate", "negate", vec![Op::Neg]),
         ("Size", "size", vec![Op::Size]),
         ("Call", "call", vec![Op::Call]),
@@ -2256,10 +2294,25 @@ fn gen_unary_grid(cx: &mut Ctx) {
         ("Display", "display", vec![Op::Display, Op::DisplayNested, Op::Debug]),
         ("Debug", "display", vec![Op::Debug, Op::Display]),
         ("Iterator", "negate", vec![Op::For, Op::ToList, Op::Reversed]),
+        ("Iterator", "size", vec![Op::For, Op::ToList, Op::Reversed, Op::Access(4)]),
         ("Access", "access", vec![Op::Access(0), Op::Method(2), Op::Access(4)]),
     ];
     for (key, hm, ops) in unary.iter() {
         let mut opds = vec![obj(0, &[0], &[]), plain(0, &[]), plain(0, &[0, 1]), host(0, &[]), obj(0, &[0], &[("Add", f(RI))])];
+        if *key == "Iterator" && *hm == "size" {
+            // every kind of value an `@iterator` may return
+            opds.clear();
+            for v in [RV::Lst, RV::Tup, RV::Iter, RV::Rng, RV::PMap, RV::Str, RV::Gen, RV::InnerNext, RV::InnerIter, RV::Int(5), RV::Null, RV::Bool(true)] {
+                opds.push(obj(0, &[0], &[(key, f(Beh::Ret(v)))]));
+                opds.push(obj(0, &[], &[(key, MV::Chain(vec![20, 21], Some(Beh::Ret(v)))), ("NextBack", f(Beh::Count(1)))]));
+            }
+            for a in &opds {
+                for op in ops {
+                    cx.push(Case { op: op.clone(), a: a.clone(), b: None });
+                }
+            }
+            continue;
+        }
         for r in &rets {
             opds.push(obj(0, &[0], &[(key, f(*r))]));
             if !matches!(r, Beh::Ret(RV::SelfV | RV::Iter)) {
@@ -2484,7 +2537,9 @@ fn rand_beh(rng: &mut Rng, key: &str, n: i64) -> Beh {
             1 => Beh::Ret(RV::Null),
             x => Beh::Ret(RV::Bool(x % 2 == 0)),
         },
-        "Iterator" => Beh::Ret(*rng.pick(&[RV::Iter, RV::Iter, RV::Tup, RV::Tup, RV::Lst, RV::Int(n), RV::Null, RV::Str])),
+        "Iterator" => Beh::Ret(*rng.pick(&[
+            RV::Iter, RV::Tup, RV::Lst, RV::Lst, RV::Rng, RV::PMap, RV::Gen, RV::InnerNext, RV::InnerIter, RV::Int(n), RV::Null, RV::Str,
+        ])),
         "Display" | "Debug" => Beh::Ret(*rng.pick(&[RV::Str, RV::Str, RV::Str, RV::Int(n), RV::Null])),
         _ => Beh::Ret(*rng.pick(&[RV::Int(n), RV::Int(n), RV::Int(n), RV::Str, RV::Null, RV::SelfV, RV::Bool(true), RV::Lst, RV::Tup])),
     }
